@@ -40,7 +40,8 @@ def _case(draw):
         sign = draw(st.sampled_from([-1.0, 1.0]))
         comps.append(dict(kind=kind, sign=sign, exp=draw(gen.exponent(-12.0, 12.0))))
     return dict(d=d, comps=comps,
-                field=draw(st.sampled_from(["zero", "decay", "decay", "affine", "const", "huge_const"])),
+                field=draw(st.sampled_from(["zero", "decay", "decay", "affine", "const", "huge_const", "slow_decay", "slow_affine"])),
+                log_slow=draw(gen.exponent(-17.0, -4.0)),  # slow dynamics: derivatives between the heuristic's thresholds 1e-15 and 1e-5
                 A=draw(gen.mat(d, d, gen.quarter(-4, 4))), b=draw(gen.vec(d, gen.quarter(-8, 8))),
                 log_atol=draw(gen.exponent(-12.0, 0.0)), log_rtol=draw(gen.exponent(-12.0, 0.0)),
                 rate=draw(st.integers(1, 12)), pytree=draw(st.booleans()), t0=draw(gen.quarter(-4, 4)),
@@ -76,6 +77,10 @@ def _field(case):
         return np.zeros((d, d)), b
     if k == "huge_const":
         return np.zeros((d, d)), b * 1e200
+    if k == "slow_decay":
+        return -np.eye(d) * 10.0 ** case.get("log_slow", -8.0), np.zeros(d)
+    if k == "slow_affine":
+        return (A - 2.0 * np.eye(d)) * 10.0 ** case.get("log_slow", -8.0), b * 10.0 ** case.get("log_slow", -8.0)
     return A - 2.0 * np.eye(d), b
 
 
